@@ -355,12 +355,24 @@ def gen_optimization(ch):
     if ch.flip("total_spend_constraint", 0.6):
         constraint = {"budget_factor": [1.0, 1.0, 0.8, 1.3][ch.choose("budget_factor", 4)], "explicit_t": ch.flip("constraint_explicit_t", 0.3)}
     package = None
-    if len(progs) >= 2 and ch.flip("spending_package", 0.2):
+    if len(progs) >= 2 and ch.flip("spending_package", 0.3):
         # a SpendingPackageAdjustment over the chosen programs instead of independent adjustments
         k = 2 + ch.choose("package.n", min(2, len(chosen) - 1))
         mode = ch.pick("package.mode", ["free_props_fixed_total", "free_props_free_total", "fixed_props_free_total"])
         package = {"progs": chosen[:k], "t": start, "mode": mode, "min_prop": [None, 0.05][ch.choose("package.min_prop", 2)], "max_prop": [None, 0.95][ch.choose("package.max_prop", 2)], "total_range": [0.8, 1.25]}
-        constraint = None
+        if constraint is not None and len(chosen) >= 3 and ch.flip("package.with_total_spend_constraint", 0.8):
+            k = min(k, len(chosen) - 1)
+            package["progs"] = chosen[:k]
+            if package["mode"] == "free_props_fixed_total":
+                package["mode"] = "free_props_free_total"
+            # the package (adjustable total) next to plain adjustments of the other programs, all under one
+            # total-spend constraint: single adjustment year so that every adjusted program is constrained in it
+            package["with_plain"] = True
+            for a in adjustments:
+                a["t"] = [start]
+            alloc_trend = 1.0
+        else:
+            constraint = None
     paired = None
     if len(chosen) >= 2 and package is None and ch.flip("paired_linear_adjustment", 0.12):
         # the library's parametric adjustment: one ramp moving money between two programs, total conserved
@@ -631,6 +643,10 @@ def execute(spec, fault, bump):
                     if pk["mode"] == "fixed_props_free_total":
                         kwp["fix_props"] = True
                     adjustments = [at.SpendingPackageAdjustment("package", pk["t"], list(pk["progs"]), init, **kwp)]
+                    if pk.get("with_plain"):
+                        adjustments += [at.SpendingAdjustment(a["prog"], a["t"], a["limit"], a["lower"], a["upper"]) for a in spec["adjustments"] if a["prog"] not in pk["progs"]]
+                        if fault is None:
+                            bump("probe:package_next_to_plain_adjustments_under_total_constraint")
                     if fault is None:
                         bump(f"probe:spending_package:{pk['mode']}")
                     pk["_init"] = init.tolist()
@@ -984,7 +1000,8 @@ def execute(spec, fault, bump):
             tol = 1e-6 * max(1.0, sum(b0))
             if any(v is None for v in n0 + n1) or abs(sum(n1) - sum(b0)) > tol or min(n1) < -tol or any(abs(a - b) > tol for a, b in zip(n0, b0)):
                 violate("adjusted_value_out_of_bounds", "optimize:paired_ramp", {"progs": pr["progs"], "start_year_before": b0, "start_year_after": n0, "end_of_ramp": n1})
-        for a in ([] if (pk or pr) else spec["adjustments"]):
+        plain_ = [] if pr else ([a for a in spec["adjustments"] if a["prog"] not in pk["progs"]] if (pk and pk.get("with_plain")) else ([] if pk else spec["adjustments"]))
+        for a in plain_:
             for t in a["t"]:
                 v = new_instr.alloc[a["prog"]].get(t)
                 x0 = float(P2.progsets[0].get_alloc(t, base_instr)[a["prog"]][0])
